@@ -137,6 +137,17 @@ func drawByz(t *rapid.T, w *sim.World, o simOpts) *sim.ByzSpec {
 		if rapid.Bool().Draw(t, "foreign-future") && spec.H < w.Cfg.MaxHeight {
 			spec.H++
 			spec.V = 0
+			// aim at a laggard when there is one: the height right above the lowest correct node, which the others have already reached
+			// (its random seed is known, so a COMMIT share for it can be genuine) - the message sits in the laggard's future cache
+			minH := uint64(1 << 62)
+			for _, i := range live {
+				if x := w.Nodes[i].H(); x < minH {
+					minH = x
+				}
+			}
+			if minH >= 1 && minH < w.Cfg.MaxHeight && minH+1 != spec.H && rapid.IntRange(0, 2).Draw(t, "foreign-laggard") > 0 {
+				spec.H = minH + 1
+			}
 		}
 	}
 	return spec
@@ -269,6 +280,15 @@ func TestC17S(t *testing.T) {
 	simProperty(t, o, func(w *sim.World) bool {
 		return w.Obs.HeightsDone >= 2 && (len(w.Cfg.Absent) > 0 || w.Obs.ByzStored > 0)
 	})
+}
+
+// C15 (engine S part): in generated cluster executions - half of them with an election or a sync handled by the main loop while
+// one node's worker sits in ValidateBlockProposal / RequestNewBlockProposal - every consumer call is entered with a live context,
+// the commit callback gets a live context, and a block that RequestNewBlockProposal returned after its context had been cancelled
+// is never broadcast.
+func TestC15S(t *testing.T) {
+	o := simOpts{Focus: "C15", MaxN: 7, MaxHeight: 3, MaxSteps: 150, ByzBias: 60}
+	simProperty(t, o, func(w *sim.World) bool { return w.Obs.Interrupts > 0 })
 }
 
 // C11 thorough variant: at emission, every correct peer is cloned by replay and judged at once (see sim.cloneCheck).
